@@ -129,4 +129,21 @@ theorem shapeOf_count (g : SGState) (st fi eo : Bool) (l : List SubPath) :
     · simp [List.filterMap_cons, List.filter_cons, shapeOf, h, ih]
     · simp [List.filterMap_cons, List.filter_cons, shapeOf, h, ih]
 
+/-! ### page isolation -/
+
+/-- `init_state` overwrites every attribute the model tracks: the start state of a page does not depend on
+what the previous page left behind.  (Breaks when an attribute is dropped from `init_state`.) -/
+theorem initStateOn_eq (prev : IState) (ctm : Matrix) (res : List (String × CsSpec)) :
+    initStateOn prev ctm res = initState ctm res := by
+  simp [initStateOn, initState, initStateResets]
+
+theorem runPagesFrom_eq (prev : IState) (pages : List PageIn) :
+    runPagesFrom prev pages = pages.map (fun p => runPage p.rotate p.mb p.res p.toks) := by
+  induction pages generalizing prev with
+  | nil => rfl
+  | cons p rest ih =>
+    obtain ⟨rot, ⟨x0, y0, x1, y1⟩, res, toks⟩ := p
+    simp only [runPagesFrom, initStateOn_eq, ih, List.map_cons]
+    cases h : execute toks (initState (pageCtm rot x0 y0 x1 y1) res) <;> simp [runPage, h]
+
 end PdfVerif.PathLemmas
